@@ -79,7 +79,7 @@ def main():
                 res['demo_patched_output'] = out[-300:]
         if not a.no_suite:
             rc, out = sh('cmake -G Ninja -B _build -S . -DCMAKE_BUILD_TYPE=RelWithDebInfo -DCMAKE_CXX_FLAGS=-Wno-error >/dev/null 2>&1 && '
-                         'cmake --build _build -j16 >/dev/null 2>&1 && ctest --test-dir _build -j8 --timeout 900 2>&1 | tail -4', cwd=wt)
+                         'cmake --build _build -j16 >/dev/null 2>&1 && ctest --test-dir _build -j8 --timeout 900 2>&1 | grep -E "tests passed|tests failed|Failed"', cwd=wt)
             res['suite'] = 'pass' if '100% tests passed' in out and 'out of 159' in out else out[-400:]
             shutil.rmtree(os.path.join(wt, '_build'), ignore_errors=True)
         res['checks'] = {}
